@@ -60,6 +60,19 @@ def table_lock_ownership():
     tree = ast.parse(src)
     cls = [n for n in tree.body if isinstance(n, ast.ClassDef) and n.name == "_WrapNumbers"][0]
     locked_methods, touching = set(), set()
+    # THE lock: the one attribute __init__ binds to a threading.Lock()/RLock(); a second lock object (per-name locks, a
+    # lock created per call) does not exclude the holders of the first one
+    lock_attrs = []
+    for m in cls.body:
+        if isinstance(m, ast.FunctionDef) and m.name == "__init__":
+            for a in ast.walk(m):
+                if isinstance(a, ast.Assign) and isinstance(a.value, ast.Call) and \
+                        ast.unparse(a.value.func).split(".")[-1] in ("Lock", "RLock") and not a.value.args:
+                    lock_attrs += [t.attr for t in a.targets if isinstance(t, ast.Attribute)]
+
+    def is_the_lock(expr):
+        return len(lock_attrs) == 1 and isinstance(expr, ast.Attribute) and expr.attr == lock_attrs[0] and \
+            isinstance(expr.value, ast.Name) and expr.value.id in ("self", "_wn")
     for m in cls.body:
         if not isinstance(m, ast.FunctionDef):
             continue
@@ -67,7 +80,7 @@ def table_lock_ownership():
         if touches and m.name != "__init__":
             touching.add(m.name)
         body = [s for s in m.body if not (isinstance(s, ast.Expr) and isinstance(s.value, ast.Constant))]
-        if len(body) == 1 and isinstance(body[0], ast.With) and "lock" in ast.unparse(body[0].items[0].context_expr):
+        if len(body) == 1 and isinstance(body[0], ast.With) and is_the_lock(body[0].items[0].context_expr):
             locked_methods.add(m.name)
     # unlocked methods must only be reachable through locked code
     callers = {}
@@ -78,8 +91,8 @@ def table_lock_ownership():
                     callers.setdefault(c.func.attr, set()).add(n.name)
     wn = [n for n in tree.body if isinstance(n, ast.FunctionDef) and n.name == "wrap_numbers"][0]
     wn_body = [s for s in wn.body if not (isinstance(s, ast.Expr) and isinstance(s.value, ast.Constant))]
-    wn_locked = len(wn_body) == 1 and isinstance(wn_body[0], ast.With) and "lock" in ast.unparse(wn_body[0].items[0].context_expr)
-    out = []
+    wn_locked = len(wn_body) == 1 and isinstance(wn_body[0], ast.With) and is_the_lock(wn_body[0].items[0].context_expr)
+    out = [("_WrapNumbers.__init__ creates exactly one lock object", len(lock_attrs) == 1, str(lock_attrs))]
     for m in sorted(touching):
         if m in locked_methods:
             out.append((f"_WrapNumbers.{m} holds the lock for its whole body", True, ""))
